@@ -95,6 +95,25 @@ Definition c03_pinned_before_first_pods (c : case) : bool :=
     end
   else true.
 
+(* C04, rolling: a partition-style step that replaces every stable pod (its replicas round UP to the whole workload) lets its
+   pods be created only behind an un-pinned stable Service (theorem C04_unpinned_before_full_step) *)
+Definition c04_unpinned_before_full_step (c : case) : bool :=
+  let i := x_inner c in let o := rc_obs i in
+  if in_rolling_normal c && negb (ob_err o) && negb (ob_gone o) then
+    match sub_of (rc_status i) with
+    | Some u =>
+      match get_step (rc_spec i) (su_idx u) with
+      | Some cur =>
+        if sstate_eqb (su_state u) StInit && negb (su_idx u =? 1) && negb (strategy_empty (tr_strategy (tspec c) (su_idx u))) &&
+           full_step (rc_wl i) cur && n_stable_exists (x_net c) &&
+           negb (opt_eqb br_eqb (snd (sync_br u (rc_br i))) (ob_br o))
+        then match n_stable_sel (x_obs_net c) with Some r => sempty r | None => true end
+        else true
+      | None => true end
+    | None => true
+    end
+  else true.
+
 (* ---- the finalising cursor ---- *)
 Definition pos (f : ftask) (r : freason) : option nat := pos_of f (canary_tasks r) O.
 (* task T lies strictly behind the cursor f *)
@@ -226,6 +245,30 @@ Definition c04_writes_safe (c : case) : bool :=
       end in
   if applies then writes_never_route_into_void (x_net c) (x_obs_writes c) else true.
 
+(* C03 and step jumps: a jump (user-set nextStepIndex) lands in the traffic-routing state only when the target step calls for
+   the same replicas as the current one; otherwise it restarts at StepInit so that the pods are upgraded first
+   (Proofs/RolloutTR.v: jump_routes_only_between_equal_replicas) *)
+Definition c03_jump_upgrades_first (c : case) : bool :=
+  let i := x_inner c in let o := rc_obs i in let sp := rc_spec i in
+  if in_rolling_normal_or_superseded c && negb (ob_err o) && negb (ob_gone o) && wl_exists (rc_wl i) && wl_consistent (rc_wl i) then
+    match sub_of (rc_status i), sub_of (ob_status o) with
+    | Some u, Some v =>
+      let jump := negb (su_next u =? next_index (nsteps sp) (su_idx u)) && (0 <? su_next u) && (su_next u <=? nsteps sp) in
+      if jump && (su_idx v =? su_next u) && negb (su_idx v =? su_idx u) && sstate_eqb (su_state v) StTraffic then
+        match get_step sp (su_idx u), get_step sp (su_next u) with
+        | Some cur, Some nx => ios_eqb (sp_replicas nx) (sp_replicas cur) &&
+                               (* ... and only when pods for that replica count were already reported ready: the step jumped from is
+                                  past its upgrade, or the BatchRelease reports the target's batch done *)
+                               (negb (sstate_eqb (su_state u) StInit || sstate_eqb (su_state u) StUpgrade) ||
+                                match synced_br (observed_sub (rc_wl i) u) (rc_br i) with
+                                | Some b => br_consistent b && ((su_next u - 1 <? br_batch b) || ((su_next u - 1 =? br_batch b) && br_state_ready b))
+                                | None => false end)
+        | _, _ => true end
+      else true
+    | _, _ => true
+    end
+  else true.
+
 (* ---- C10 with traffic routing: traffic is back on stable before the new-revision pods go ---- *)
 Definition route_gone (n : net) : bool := match n_route n with RNone => true | RSet _ => false end.
 (* rollback: a reconcile of the cancellation sequence that patches / deletes the BatchRelease starts from a network without
@@ -273,7 +316,12 @@ Definition judge (c : case) : list verdict :=
   [ if corresponds_tr c then VOk else VMismatch;
     clause "C03_traffic_state_entered_only_after_pods_ready" (c03_entered_after_ready c);
     clause "C04_no_write_routes_into_a_void" (c04_writes_safe c);
+    clause "C04_stable_unpinned_before_a_step_that_replaces_every_stable_pod" (c04_unpinned_before_full_step c);
     clause "C06_wait_survives_restart" (c06_wait_survives_restart c);
+    (* C06: the same safety statement read as a crash statement -- from ANY half-configured network a crash or a failed call can
+       leave behind (canary Service in place but stable Service not yet pinned, ...), with any in-memory state, the next
+       reconcile writes a route only once both Services are in place *)
+    clause "C06_no_route_from_a_half_configured_network" (c03_route_after_ready c);
     (* F30: without a workload the revision label key is unknown and RestoreStableService is passed with the pin in place *)
     clause_known "C05_task_passed_means_done" "C05:F30"
       (negb (wl_exists (rc_wl (x_inner c))) && match sub_of (rc_status (x_inner c)) with Some u => ftask_eqb (su_fin u) FtRestoreStable | None => false end)
@@ -281,6 +329,7 @@ Definition judge (c : case) : list verdict :=
     clause "C03_route_written_only_after_pods_ready" (c03_route_after_ready c);
     clause "C03_routed_means_exact" (c03_routed_exactly c);
     clause "C03_stable_pinned_before_first_pods" (c03_pinned_before_first_pods c);
+    clause "C03_jump_reaches_traffic_routing_only_between_equal_replicas" (c03_jump_upgrades_first c);
     (* F31: the exit reason changes while the cursor is mid-sequence (rollback being finalised, then delete / disable):
        the cursor is kept but read against the other order, so tasks are skipped *)
     clause_known "C04_finalising_invariant_kept" "C04:F31" (reason_changed c) (c04_invariant_kept c);
